@@ -40,7 +40,7 @@ func runVec(v *Vec) (res string) {
 		for k := 0; k < v.N; k++ {
 			for _, in := range v.Inj {
 				if in.At == k {
-					cpu.Interrupt = mkIntr(in.Intr.Type, in.Intr.Data)
+					cpu.Interrupt = mkIntr(w, in.Intr.Type, in.Intr.Data)
 				}
 			}
 			cpu.Step()
@@ -87,7 +87,7 @@ func runVec(v *Vec) (res string) {
 		for k := 0; k < v.N; k++ {
 			for _, in := range v.Inj {
 				if in.At == k {
-					cpu.Interrupt = mkIntr(in.Intr.Type, in.Intr.Data)
+					cpu.Interrupt = mkIntr(w, in.Intr.Type, in.Intr.Data)
 				}
 			}
 			cpu.Step()
@@ -102,7 +102,7 @@ func runVec(v *Vec) (res string) {
 				nport++
 				for _, in := range v.Inj {
 					if in.At == nport {
-						cpu.Interrupt = mkIntr(in.Intr.Type, in.Intr.Data)
+						cpu.Interrupt = mkIntr(w, in.Intr.Type, in.Intr.Data)
 					}
 				}
 			}
